@@ -625,6 +625,21 @@ func (x *Exec) builtin(st *State, f *ssa.Builtin, c *ssa.CallCommon, args []Val,
 	case "append":
 		s1, s2 := args[0], args[1]
 		st1 := s1.T.Underlying().(*types.Slice)
+		// append is modelled as producing a fresh array. That is wrong when the first argument is a
+		// re-sliced view (y[:k]) of an array the function does not own: the append then overwrites
+		// elements the owner of y still sees. Such an append needs write permission on y's elements.
+		if sl := resliceSource(c.Args[0], 4, map[ssa.Value]bool{}); sl != nil {
+			goal := Term("false")
+			if base, ok := st.top().regs[sl.X]; ok && len(base.L) == 3 {
+				var gs []Term
+				for _, l := range leavesOf(st1.Elem()) {
+					gs = append(gs, x.writable(extend(extendIdx(base.L[0], base.L[1]), l.Path), l.Sort))
+				}
+				goal = tOr(tAnd(gs...), "(<= "+base.L[2]+" 0)")
+			}
+			x.oblige(st, "frame", "append into a re-sliced view of "+describe(sl.X), goal, x.spec.Props,
+				"append to a shortened view of a slice the function does not own overwrites the owner's elements", pos)
+		}
 		obj := st.newObject()
 		nl := "(+ " + s1.L[2] + " " + s2.L[2] + ")"
 		// contents: element j of the result equals element j of the first slice
@@ -793,6 +808,66 @@ func (x *Exec) closureVars(st *State, fn *ssa.Function, bindings []Val) ([]strin
 		}
 	}
 	return names, vals
+}
+
+// resliceSource: does the slice value come (through phis) from a Slice instruction applied to
+// something that is not a fresh local allocation? Returns that instruction.
+func resliceSource(v ssa.Value, depth int, seen map[ssa.Value]bool) *ssa.Slice {
+	if depth < 0 || seen[v] {
+		return nil
+	}
+	seen[v] = true
+	switch v := v.(type) {
+	case *ssa.Phi:
+		for _, e := range v.Edges {
+			if r := resliceSource(e, depth-1, seen); r != nil {
+				return r
+			}
+		}
+	case *ssa.Slice:
+		if _, isSlice := v.X.Type().Underlying().(*types.Slice); !isSlice {
+			return nil // slicing an array or string
+		}
+		if ownedSlice(v.X, 4, map[ssa.Value]bool{}) {
+			return nil
+		}
+		return v
+	}
+	return nil
+}
+
+// ownedSlice: the slice was allocated by this function (make, append, composite literal) on every path.
+func ownedSlice(v ssa.Value, depth int, seen map[ssa.Value]bool) bool {
+	if depth < 0 {
+		return false
+	}
+	if seen[v] {
+		return true
+	}
+	seen[v] = true
+	switch v := v.(type) {
+	case *ssa.MakeSlice:
+		return true
+	case *ssa.Call:
+		if b, ok := v.Call.Value.(*ssa.Builtin); ok && b.Name() == "append" {
+			return ownedSlice(v.Call.Args[0], depth-1, seen)
+		}
+	case *ssa.Slice:
+		if _, isPtr := v.X.Type().Underlying().(*types.Pointer); isPtr {
+			if _, isAlloc := v.X.(*ssa.Alloc); isAlloc {
+				return true // slice of a fresh array (composite literal)
+			}
+		}
+		return ownedSlice(v.X, depth-1, seen)
+	case *ssa.Phi:
+		for _, e := range v.Edges {
+			if !ownedSlice(e, depth-1, seen) {
+				return false
+			}
+		}
+		return true
+	}
+	return false
 }
 
 // anyChanKey: "anychan.<Elem>" — every channel whose element type has that bare name
